@@ -202,6 +202,76 @@ def error_sites(ctx):
     return out
 
 
+def expr_text(n):
+    """compact source-like text of a clang AST expression (enough to name what is packed)"""
+    k = n.get("kind")
+    inner = n.get("inner", [])
+    if k in ("ImplicitCastExpr", "ParenExpr", "CStyleCastExpr"):
+        return expr_text(inner[0])
+    if k == "DeclRefExpr":
+        return n["referencedDecl"]["name"]
+    if k == "MemberExpr":
+        return expr_text(inner[0]) + ("->" if n.get("isArrow") else ".") + n["name"]
+    if k == "UnaryOperator":
+        return n["opcode"] + expr_text(inner[0])
+    if k == "UnaryExprOrTypeTraitExpr":
+        return "sizeof(" + (expr_text(inner[0]) if inner else n.get("argType", {}).get("qualType", "?")) + ")"
+    if k == "IntegerLiteral":
+        return n["value"]
+    if k == "BinaryOperator":
+        return expr_text(inner[0]) + n["opcode"] + expr_text(inner[1])
+    if k == "CallExpr":
+        return expr_text(inner[0]) + "(" + ",".join(expr_text(a) for a in inner[1:]) + ")"
+    return "?"
+
+
+def pack_layout(ctx, fn):
+    """Ordered list of what `fn` (enc_pack_outer / enc_pack_inner) writes through its cursor `p`:
+    ("byte", expr) for `*p = expr`, ("be32", expr) for `u32 = htonl (expr); memcpy (p, &u32, …)`,
+    ("bytes", src, len) for other `memcpy (p, src, len)`; a guard `if (cond)` around a write is kept as a prefix."""
+    from .ktrans import load_ast, KError
+    try:
+        ast = load_ast(ctx.repo, "src/munged/enc.c", fn)
+    except KError as e:
+        ctx.obligation("gen", "pack layout of %s extracted" % fn, False, str(e))
+        return None
+    out = []
+    state = {"htonl": None}
+
+    def stmt(n, guard=""):
+        k = n.get("kind")
+        if k == "CompoundStmt":
+            for c in n.get("inner", []):
+                stmt(c, guard)
+        elif k == "IfStmt":
+            inner = n["inner"]
+            cond = expr_text(inner[0])
+            if "malloc" in cond:
+                return
+            stmt(inner[1], (guard + " && " if guard else "") + cond)
+        elif k == "BinaryOperator" and n.get("opcode") == "=":
+            lhs, rhs = n["inner"]
+            lt = expr_text(lhs)
+            if lt == "*p":
+                r = rhs
+                # `*p = m->addr_len = sizeof (m->addr)`: the stored value is the innermost right-hand side
+                out.append(("byte", expr_text(r), guard))
+            elif lt == "u32":
+                state["htonl"] = expr_text(rhs)
+        elif k == "CallExpr" and expr_text(n["inner"][0]) == "memcpy":
+            a = n["inner"][1:]
+            if expr_text(a[0]) == "p":
+                src = expr_text(a[1])
+                if src == "&u32" and state["htonl"]:
+                    out.append(("be32", state["htonl"].replace("htonl(", "").rstrip(")"), guard))
+                    state["htonl"] = None
+                else:
+                    out.append(("bytes", src + " len " + expr_text(a[2]), guard))
+    body = [c for c in ast["inner"] if c.get("kind") == "CompoundStmt"][0]
+    stmt(body)
+    return out
+
+
 def generate(ctx):
     prims = probe_prims(ctx)
     kv = probe_consts(ctx)
@@ -232,6 +302,13 @@ def generate(ctx):
                           for c, t in sites[fn])
         rows.append('  ("%s", [%s])' % (fn, items))
     body += ",\n".join(rows) + "]\n\n"
+    for fn in ("enc_pack_outer", "enc_pack_inner"):
+        lay = pack_layout(ctx, fn)
+        if lay is None:
+            return False
+        body += "/-- what `%s` writes through its cursor, in order: (kind, expression, guard) -/\n" % fn
+        body += "def %s_layout : List (String × String × String) := [\n%s]\n\n" % (
+            fn, ",\n".join('  ("%s", "%s", "%s")' % (a, b.replace('"', "'"), g.replace('"', "'")) for (a, b, g) in lay))
     body += d + "\n" + e + "\n" + prims + "\nend Munge.Gen.Dec\n"
     gen_write("Dec", body)
     return True
